@@ -104,8 +104,18 @@ def reach_missing(root, reg):
     return miss
 
 
+def additional_in_or_set(case, reason):
+    """F05: additionalProperties written inside a rule-set alternative of an `or` rule"""
+    try:
+        text = bytes.fromhex(case.line.split(' ')[2]).decode()
+    except Exception:
+        return False
+    return bool(re.search(r'or: \[[^\]]*\{[^}]*additionalProperties', text))
+
+
 class Prop:
     id = 'C05'
+    known_matchers = {'additional_in_or_set': additional_in_or_set}
     level = 'proof'
     theorems_file = 'Properties/C05.v'
     exhaustive_note = ''
@@ -388,6 +398,30 @@ class Prop:
                 if o != ref:
                     bad.append((Case(c.line, 'unused-types'), 'registering unused valid types changes the result: %s vs %s' % (o[:120], ref[:120])))
                     break
+        # reference positions the graph model has no node for: hand-written schemas with the names they refer to; the one
+        # withheld type (@gone) must be listed and reported
+        import vf
+        from props.c10 import spec, hx
+        hand = [
+            ('{} // {or: [{type: "object", additionalProperties: "@gone"}, {type: "string"}]}', {}, ['@gone']),
+            ('{\n  "k": {} // {or: [{type: "object", additionalProperties: "@gone"}, {type: "integer"}]}\n}', {}, ['@gone']),
+            ('{} // {or: [{type: "object", additionalProperties: "@here"}, {type: "string"}]}', {'@here': '1'}, ['@here']),
+            ('[\n  "x" // {or: [{type: "@gone"}, {type: "string"}]}\n]', {}, ['@gone']),
+            ('{ // {additionalProperties: "@gone"}\n}', {}, ['@gone']),
+            ('{\n  "a": { // {additionalProperties: "@here", allOf: "@gone"}\n  }\n}', {'@here': '1'}, ['@here', '@gone']),
+        ]
+        lines = ['proj all ' + spec(r, t) for r, t, _ in hand]
+        self.hand_cases = len(lines)
+        for l, o, (r, t, want) in zip(lines, vf.run_impl(lines), hand):
+            m = re.search(r'check=(\S+) len=\S+ used=(\S+)', o)
+            if not m:
+                bad.append((Case(l, 'hand-written-positions'), 'unreadable result ' + o[:120]))
+                continue
+            got = set() if m.group(2) == '-' else set(bytes.fromhex(x).decode() for x in m.group(2).split(','))
+            if got != set(want):
+                bad.append((Case(l, 'hand-written-positions'), 'UsedUserTypes() = %s, the schema refers to %s (%s)' % (sorted(got), sorted(want), r.replace('\n', ' ')[:90])))
+            elif '@gone' in want and not m.group(1).startswith('err:1302'):
+                bad.append((Case(l, 'hand-written-positions'), 'type @gone is referred to and not registered but Check() says %s (%s)' % (m.group(1)[:40], r.replace('\n', ' ')[:90])))
         return bad
 
     def shrink_candidates(self, case):
